@@ -11,4 +11,9 @@ open Strengths.Gen.PyIdioms
 and reads dictionaries by key) -/
 theorem coarsegrain_value_semantic : valueSemantic inv_coarsegrain = true := by decide +kernel
 
+/-- `coarsegrain.py` never aliases an array on purpose: no `np.asarray`, `np.frombuffer`, `.view(…)`, `memoryview` — what a function
+returns is a fresh object (the model's values are immutable; this is the source fact that lets mutation of a returned
+object be ignored) -/
+theorem coarsegrain_no_views : views_coarsegrain = [] := by decide +kernel
+
 end Strengths.PyIdioms
